@@ -79,7 +79,7 @@ def _floyd(prog, rep):
     rep.ob('F.bookkeeping-between-mask-and-length-update', f, '; '.join(norm(s) for s in b)[:160], order and bool(pm_),
            'next hops must be updated after the mask is taken and before (or independently of) the length update, under the same mask')
     cand = [s for s in b if isinstance(s, ast.Assign) and norm(s.targets[0]) == 'i2k_k2j']
-    okc = len(cand) == 1 and norm(cand[0].value) == 'np.repeat(SPL[:, [%s]], n, 1) + np.repeat(SPL[[%s], :], n, 0)' % (k, k)
+    okc = len(cand) == 1 and norm(cand[0].value) == cn('np.repeat(SPL[:, [%s]], n, 1) + np.repeat(SPL[[%s], :], n, 0)' % (k, k))
     rep.ob('F.candidate-is-path-through-k', f, cand[0] if cand else 'i2k_k2j', okc, 'candidate length of (i, j) must be SPL[i,k] + SPL[k,j]')
     stmts = _stmts(f.node)
     p0 = [s for s in stmts if isinstance(s, ast.Assign) and norm(s.targets[0]) == 'Pmat' and s.lineno < lp.lineno]
